@@ -6,7 +6,7 @@
    [P] is the payload type (what a route leads to: a *RouteConfig, a *Listener). *)
 From FRP Require Import Model.Router Model.RouteSpec Model.HttpPool
   Proofs.RouterProofs Proofs.RouteSpecProofs Proofs.RouteClauses Proofs.HttpPoolProofs
-  Corr.C06 Proofs.C06MonitorProofs.
+  Corr.C06 Proofs.C06MonitorProofs Model.RouterSched Proofs.RouterSchedProofs gen.GenC06Route.
 Open Scope Z_scope.
 
 (* router_inv: after every history every per-(domain,user) slice is strictly descending by location
@@ -38,6 +38,77 @@ Theorem C06_table_refines_route_set : forall (P : Type) (hist : list (rt_op P)),
   (forall host path user, rt_get_vhost (rt_run hist) host path user = rs_best_match (rs_run hist) host path user).
 Proof. exact (@rc_table_refines_route_set). Qed.
 Print Assumptions C06_table_refines_route_set.
+
+(* Reflective, over today's source (translator unit c06route -> gen/GenC06Route.v): the wildcard walk as
+   HTTPReverseProxy.getVhost and Muxer.getListener perform it -- with the split call (strings.Split, i.e.
+   ALL labels of the host, not SplitN with a bound), the loop bound and the statement shape read from the
+   source -- returns the most specific matching route, for every history and every host with ANY number
+   of labels.  The statement type-checks only if every site has the modelled shape. *)
+Theorem C06_source_walk_refines_best_match :
+  forall (P : Type) site w, rt_site_lookup site c06_walk_sites = Some w ->
+  forall (hist : list (rt_op P)) host path user,
+    rt_get_vhost_g w (rt_run hist) host path user = rs_best_match (rt_abs (rt_run hist)) host path user.
+Proof.
+  intro P. exact (rs_source_walk_refines c06_walk_sites
+    (eq_refl true <: forallb (fun nw : string * rt_walk_src => rt_walk_src_std (snd nw)) c06_walk_sites = true)).
+Qed.
+Print Assumptions C06_source_walk_refines_best_match.
+
+Theorem C06_source_walk_sites_present :
+  rt_site_lookup "HTTPReverseProxy.getVhost" c06_walk_sites <> None /\
+  rt_site_lookup "Muxer.getListener" c06_walk_sites <> None.
+Proof. split; discriminate. Qed.
+Print Assumptions C06_source_walk_sites_present.
+
+(* ---------- concurrent registrations (all schedules) ---------- *)
+(* the lock sections of Routers.Add / Routers.Del as the translator reads them from today's router.go *)
+Definition c06_src_prog (name : string) : ra_prog :=
+  match rt_site_lookup name c06_router_locks with
+  | Some toks => match ra_sections toks with Some p => p | None => [] end
+  | None => []
+  end.
+
+(* Reflective: in today's source the existence check and the insertion of Routers.Add are inside ONE
+   write-lock section (and Del is one write-lock section); therefore, for every set of goroutines
+   calling Add / Del and EVERY schedule of their lock sections, the answers and the table are those of
+   the calls executed one after the other in the order in which they finished: a registration is
+   refused exactly when its triple is registered at that moment, under every schedule *)
+Theorem C06_concurrent_registrations_linearizable :
+  forall (P : Type) (s : rstate P) (ops : list (rt_op P)) (sched : list nat),
+    let c := ra_run sched (ra_init (c06_src_prog "Routers.Add") (c06_src_prog "Routers.Del") s ops) in
+    ra_replay s (cf_log c) = Some (cf_tab c).
+Proof.
+  intro P. exact (rs_atomic_linearizable (c06_src_prog "Routers.Add") (c06_src_prog "Routers.Del")
+    (eq_refl true <: ra_add_atomic (c06_src_prog "Routers.Add") = true)
+    (eq_refl true <: ra_del_atomic (c06_src_prog "Routers.Del") = true)).
+Qed.
+Print Assumptions C06_concurrent_registrations_linearizable.
+
+(* what a successful replay says: triples stay unique under every schedule ... *)
+Theorem C06_replay_keeps_invariant : forall (P : Type) (log : list (ra_event P)) s s',
+  rp_wf s -> ra_replay s log = Some s' -> rp_wf s'.
+Proof. exact (@rs_replay_wf). Qed.
+Print Assumptions C06_replay_keeps_invariant.
+
+(* ... and a registration is refused only for, and always for, a duplicate triple *)
+Theorem C06_refused_iff_duplicate_under_every_schedule :
+  forall (P : Type) (l1 : list (ra_event P)) e l2 s s1 s' d l u p,
+  rp_wf s -> ra_replay s (l1 ++ e :: l2) = Some s' -> ra_replay s l1 = Some s1 -> ev_op e = RAdd d l u p ->
+  (ev_ok e = false <-> exists r, In r (rt_abs s1) /\ rt_dom r = lower d /\ rt_loc r = l /\ rt_user r = u).
+Proof. exact (@rs_replay_refused_iff_duplicate). Qed.
+Print Assumptions C06_refused_iff_duplicate_under_every_schedule.
+
+(* named regression witness: with the check and the insertion in two lock sections there is a
+   schedule under which two registrations of one triple are both accepted, the table holds the triple
+   twice, no sequential order explains the answers, and one Del removes both routes *)
+Theorem C06_check_then_insert_not_linearizable :
+  let c := ra_run [0; 1; 0; 1]%nat (ra_init rs_split_prog ra_del_prog_std rt_empty rs_split_ops) in
+  map (@ev_ok Z) (cf_log c) = [true; true] /\
+  length (rt_abs (cf_tab c)) = 2%nat /\
+  ra_replay rt_empty (cf_log c) = None /\
+  rt_abs (rt_del (cf_tab c) (hx "682e74657374") [] []) = [].
+Proof. exact rs_check_then_insert_not_linearizable. Qed.
+Print Assumptions C06_check_then_insert_not_linearizable.
 
 (* "most specific" spelled out: the selected route matches, and every other matching registered
    route is strictly less specific in the order (domain, user, location) *)
